@@ -71,6 +71,8 @@ type topoState struct {
 	// filterOn: the session has a host filter that rejects the addresses 10.0.0.x with
 	// x = 2 mod 3 (never the first contact point)
 	filterOn bool
+	// ownRow: every node lists itself among its peers
+	ownRow bool
 	// reconnTicker: the session retries nodes it holds for down (ReconnectInterval > 0): a
 	// node reported down that is in fact reachable comes back on its own
 	reconnTicker bool
@@ -169,6 +171,10 @@ func runTopo(e *Env) {
 		k.Fault("topo.host-filter")
 	}
 	e.Note("hostFilter", st.filterOn)
+	if !e.NoFaults && tp.Chance(1, 5) {
+		st.ownRow = true
+		k.Fault("topo.node-lists-itself-among-its-peers")
+	}
 	cfg.ProtoVersion = []int{4, 3}[tp.Next(2)]
 	cfg.NumConns = 1 + tp.Next(2)
 	// the long timeout outlives the driver's one-second debounce windows, so that a refresh
@@ -226,6 +232,11 @@ func runTopo(e *Env) {
 					rows[i].NullRack = true
 				}
 			}
+		}
+		if st.ownRow {
+			// a node that lists itself in its own system.peers (seen with some proxies and during
+			// address changes): the row repeats what system.local says and comes first
+			rows = append([]node.PeerRow{{Peer: n2n(h), RPC: h.Addr, DC: h.DC, Rack: h.Rack, HostID: h.HostID, Version: h.Version, SchemaVersion: h.SchemaVersion, Tokens: h.Tokens}}, rows...)
 		}
 		if st.dupFor != "" {
 			for _, r := range rows {
